@@ -1,6 +1,7 @@
 mod common;
 mod c01;
 mod c02;
+mod c03;
 mod c06;
 mod selftest;
 
@@ -15,6 +16,7 @@ fn main() {
         "selftest" => selftest::run(),
         "C01" => c01::run(tier),
         "C02" => c02::run(tier),
+        "C03" => c03::run(tier),
         "C06" => c06::run(tier),
         "load-probe" => c06::load_probe_child(&args[3]),
         other => {
